@@ -103,6 +103,20 @@ fn check_sfnt(file: &[u8], model: &BTreeMap<[u8; 4], Vec<u8>>) -> Result<Checked
         return e("truncated-header", "no numTables".into());
     };
     let n = n as usize;
+    // binary-search helper fields, from the spec formula (OpenType "Table Directory"):
+    // entrySelector = floor(log2 n), searchRange = 16 * 2^entrySelector, rangeShift = 16 n - searchRange.
+    // Integer arithmetic only. log2(0) is undefined, so a font with no tables is not judged here.
+    if n >= 1 {
+        let es = (usize::BITS - 1 - n.leading_zeros()) as usize;
+        let want = ((16usize << es) as u16, es as u16, (16 * n - (16usize << es)) as u16);
+        let got = (be16(file, 6).unwrap_or(0), be16(file, 8).unwrap_or(0), be16(file, 10).unwrap_or(0));
+        if got != want {
+            return e(
+                "search-fields-differ-from-spec-formula",
+                format!("numTables {n}: (searchRange, entrySelector, rangeShift) = {got:?}, spec formula gives {want:?}"),
+            );
+        }
+    }
     let dir_end = 12 + 16 * n;
     if file.len() < dir_end {
         return e("truncated-directory", format!("{} < {}", file.len(), dir_end));
@@ -776,7 +790,7 @@ fn large_tables(run: &Run) {
 fn body(run: &Run, replay: Option<&Value>) {
     run.rule("a case is one FontBuilder usage (tag->bytes map in one insertion order, or one add_raw/copy_missing_tables history) built by the real FontBuilder::build; distinct = distinct (tag set, per-tag length mod 4, whether a 32-bit checksum sum wrapped) for maps, distinct final models for histories; non-trivial = at least one table (maps) / at least one add_raw and one copy (histories)");
     run.assume("the checker's reading of the OpenType spec: checksum = wrapping sum of big-endian u32 words of the zero-padded table; whole-file checksum over all words of the file");
-    run.assume("binary-search helper fields (searchRange, entrySelector, rangeShift), the sfnt version value and the physical order/gaps of tables are not part of the statement and are not judged");
+    run.assume("the sfnt version value and the physical order/gaps of tables are not part of the statement and are not judged; searchRange/entrySelector/rangeShift are compared with the spec formula for every font with at least one table (undefined, hence not judged, for zero tables)");
     run.assume("`build` is only used as the terminal operation of a history (it drains the builder; the statement says nothing about re-use after build)");
     if let Some(case) = replay {
         let mut l = Local::new();
